@@ -26,6 +26,11 @@ int main(int argc, char** argv) {
       string r = st.unparseRemainingTokens(); cout << "returned \"" << r << "\"" << endl;
     } else if (fn == "FileTools__getParent") {
       size_t n = a.u("verif_in_path_n"); string p(n, 'a'); cout << "getParent(\"" << p << "\")" << endl; string r = FileTools::getParent(p); cout << "returned \"" << r << "\"" << endl;
+    } else if (fn == "TextTools__removeSubstrings5") {
+      size_t n = a.u("verif_in_s_n"), nb = a.u("verif_in_exceptionsBeginning_n"), ne = a.u("verif_in_exceptionsEnding_n"); if (n > 4096 || nb > 64 || ne > 64) return 3;
+      string s(n, 'a'); if (n) s[0] = '['; vector<string> eb(nb, "xx["), ee(ne, "]yy");   /* a block opening at position 0, exception strings that would start before the text */
+      cout << "removeSubstrings(\"" << s << "\", '[', ']', " << nb << " x \"xx[\", " << ne << " x \"]yy\")" << endl;
+      string r = TextTools::removeSubstrings(s, '[', ']', eb, ee); cout << "returned \"" << r << "\"" << endl;
     } else { cout << "no native check for " << fn << endl; return 3; }
   } catch (bpp::Exception& e) { cout << "bpp::Exception: " << e.what() << endl; return 0; }
   catch (std::bad_alloc&) { cout << "CONFIRMED: unbounded allocation (std::bad_alloc under a 2 GiB address-space limit)" << endl; return 1; }
